@@ -526,6 +526,8 @@ class Ctx:
         if 'nested_instruction_sweep' in cov or 'nested2_instruction_sweep' in cov:
             tb.append('harness/src/bin/p_nested.rs, p_nested2.rs: x86-64 trap-flag single-stepping, SIGTRAP handler running the nested operation (fork per boundary in p_nested2); '
                       'outcome sets of the extracted SC model over step boundaries as the oracle')
+        if 'instruction_registry_sweep' in cov:
+            tb.append('harness/src/bin/p_nested_reg.rs: trap-flag single-stepping of register / unregister / unregister_signal + fork per boundary, raise(SIGUSR1) on the same thread inside the child; the oracle is the property text evaluated in the child')
         if 'instruction_close_sweep' in cov:
             tb.append('harness/src/bin/p_nested_close.rs: trap-flag single-stepping + fork per boundary, Handle::close() called inside the SIGTRAP handler of the child')
         if 'instruction_delivery_sweep' in cov:
